@@ -13,6 +13,7 @@ import (
 	"path/filepath"
 	"sort"
 	"sync"
+	"sync/atomic"
 	"time"
 
 	"encoding/json"
@@ -43,6 +44,10 @@ type vsK8s struct {
 	mu     sync.Mutex
 	pods   map[string]*vsPod // key ns/name
 	cached map[string]*daemon.PodInfo
+	// vpcENI: pods created from now on are of network type VPCENI (exclusive-ENI node)
+	vpcENI bool
+	// failPatch: this many following PatchPodIPInfo calls fail (api server error)
+	failPatch atomic.Int32
 	// gate, if set, is called (without the lock) at the start of every GetPod
 	gate func(key string)
 	// existGate, if set, is called (without the lock) after PodExist has determined its
@@ -124,7 +129,13 @@ func (k *vsK8s) PodExist(namespace, name string) (bool, error) {
 func (k *vsK8s) GetServiceCIDR() *types.IPNetSet                   { return &types.IPNetSet{} }
 func (k *vsK8s) SetNodeAllocatablePod(count int) error             { return nil }
 func (k *vsK8s) PatchNodeAnnotations(map[string]string) error      { return nil }
-func (k *vsK8s) PatchPodIPInfo(*daemon.PodInfo, string) error      { return nil }
+func (k *vsK8s) PatchPodIPInfo(*daemon.PodInfo, string) error {
+	if k.failPatch.Load() > 0 {
+		k.failPatch.Add(-1)
+		return fmt.Errorf("injected: api server refused the pod-ips patch")
+	}
+	return nil
+}
 func (k *vsK8s) RecordNodeEvent(eventType, reason, message string) {}
 func (k *vsK8s) PatchNodeIPResCondition(corev1.ConditionStatus, string, string) error {
 	return nil
@@ -148,6 +159,9 @@ func (k *vsK8s) setPodOpt(name, uid string, stick, erdma bool) {
 	k.mu.Lock()
 	defer k.mu.Unlock()
 	info := &daemon.PodInfo{Name: name, Namespace: "ns", PodNetworkType: daemon.PodNetworkTypeENIMultiIP, PodUID: uid, ERdma: erdma}
+	if k.vpcENI {
+		info.PodNetworkType = daemon.PodNetworkTypeVPCENI
+	}
 	if stick {
 		info.IPStickTime = 5 * time.Minute
 	}
@@ -233,6 +247,9 @@ type vsPoolCfg struct {
 	// Erdma: number of ERDMA interface slots (enable_erdma): pods that ask for ERDMA are served
 	// from interfaces of type "erdma" only, as NetworkServiceBuilder.setupENIManager wires them
 	Erdma int `json:"erdma,omitempty"`
+	// ENIOnly: the node runs in exclusive-ENI mode (daemon mode ENIOnly, pods of network type
+	// VPCENI, one address per interface)
+	ENIOnly bool `json:"eni_only,omitempty"`
 }
 
 // vsAddPreENIs creates the pre-attached interfaces of a pool configuration in the cloud.
@@ -426,14 +443,21 @@ func vsStart(cfg vsPoolCfg, cloud *cloudsim.Cloud, k *vsK8s, dir, dbPath string)
 		}
 	}
 	mgr := eni.NewManager(cfg.MinIdle, cfg.MaxIdle, cfg.Cap*(maxENI+cfg.Erdma), 0, nis, daemon.EniSelectionPolicy(cfg.Policy), nil)
+	mode := daemon.ModeENIMultiIP
+	k.vpcENI = cfg.ENIOnly
+	if cfg.ENIOnly {
+		mode = daemon.ModeENIOnly
+	}
 	w.svc = &networkService{
-		daemonMode: daemon.ModeENIMultiIP,
+		daemonMode: mode,
 		k8s:        k,
 		resourceDB: w.store,
 		eniMgr:     mgr,
 		enableIPv4: !cfg.NoV4,
 		enableIPv6: cfg.V6,
 		ipamType:   types.IPAMTypeDefault,
+		// enable_patch_pod_ips is on by default
+		enablePatchPodIPs: true,
 	}
 	w.ctx, w.cancel = context.WithCancel(context.Background())
 	// sync period 0: the periodic balancer is not started, the harnesses drive it themselves
